@@ -1750,9 +1750,24 @@ class VM:
         # Run it to completion in a nested loop that stops when this call returns
         return self._call_callback(func, args, this_val)
 
+    def _running_vm(self) -> "VM":
+        """This VM, or the context's current VM once this one has finished."""
+        context = getattr(self, "_context", None)
+        if (
+            not self.call_stack
+            and context is not None
+            and context._current_vm is not None
+        ):
+            return context._current_vm
+        return self
+
     def _arm_regex(self, regex: JSRegExp) -> None:
         """A match runs against the deadline of the evaluation that starts it,
         not of the one that created the RegExp object."""
+        running = self._running_vm()
+        if running is not self:
+            running._arm_regex(regex)
+            return
         if self.time_limit is None:
             regex._internal._poll_callback = None
         else:
@@ -2698,6 +2713,11 @@ class VM:
         self, callback: JSValue, args: List[JSValue], this_val: JSValue = None
     ) -> JSValue:
         """Call a callback function synchronously and return the result."""
+        running = self._running_vm()
+        if running is not self:
+            # A built-in method value read in an earlier evaluation: the callback
+            # belongs to the evaluation that calls the method now
+            return running._call_callback(callback, args, this_val)
         if isinstance(callback, JSFunction):
             self._enter_native()
             try:
